@@ -14,6 +14,12 @@ A8 = ("A8 the weight function sum_i w_i N_i(u) of a rational curve has no zero (
 A10 = ("A10 assumed contracts inside the engine-V proof of the constructor: tuple.count on a SORTED tuple describes one contiguous block (sortedness is an "
        "obligation at the call site); ImmutableKnotVector.__get_unique returns the strictly increasing distinct values under A3 (checked per shape by engine S); "
        "callers use the constructor by its proved contract (heavy.ImmutableKnotVector.__new__)")
+A11 = ("A11 shape-level contracts of curves.py (engine V, C15): a knot vector is seen through (npts, degree, number of distinct knots) only; assumed callee "
+       "contracts: heavy.Operations.knot_insert / degree_increase return matrices of the stated shape for a legal request (engine S checks the shapes per shape "
+       "in C04 / C06), KnotVector + / - nodes returns a new vector of the stated length with an inferred degree, fit_curve fills a FRESH curve with npts points and, for a weighted "
+       "source, npts weights (assumed; its values are the subject of C11), heavy.find_roots raises ValueError for a weight list of the wrong length (engine B checks this clause on the real function); "
+       "the final weights setter of update / apply is assumed not to find a zero in the refitted / transformed weight function (no witness against it was found "
+       "by a native search over 3000 random rational curves)")
 S_COMMON = [A1, A2, A3, A5, A6, A7, A8]
 TRUSTED = ["CPython 3.12", "numpy 2.5 object-dtype loops", "fractions.Fraction", "sympy 1.14 polys.fields", "z3-solver 5.1.0", "cvc5 1.4.0",
            "vlib/spec.py (Cox-de Boor spec, written from the definition)"]
